@@ -42,6 +42,8 @@ PARTIAL = ("C01_read_exact_partial is proved for every stored layout satisfying 
 
 
 def c_hop(o):
+    if o["op"] == "gc":
+        return "HGC"
     if o["op"] == "read":
         return "HRead %s %s" % (cesgen.zl(o["keys"]), c_tr(o["tr"][0], o["tr"][1]))
     return "HW (%s)" % cesgen.c_wop(o)
@@ -70,11 +72,23 @@ def gen_read(rng, setup, pos, edges=None):
     return {"op": "read", "keys": ks, "tr": tr}
 
 
+GC_FLAVOUR = 0.08     # histories built so that the collector has to move domains
+GC_TAIL = 0.2         # other histories that end with Close+Open and a collector pass
+
+
 def gen_case(rng, tier):
     malformed = rng.random() < 0.1
-    setup = cesgen.gen_setup(rng, malformed=malformed)
-    if not malformed and rng.random() < 0.15:
-        cesgen.add_short_write(rng, setup)
+    gc = False
+    if not malformed and rng.random() < GC_FLAVOUR:
+        setup = cesgen.gen_gc_setup(rng)
+        gc = True
+    else:
+        setup = cesgen.gen_setup(rng, malformed=malformed)
+        if not malformed and rng.random() < 0.15:
+            cesgen.add_short_write(rng, setup)
+        elif not malformed and rng.random() < GC_TAIL:
+            setup["script"].append({"op": "reopen"})
+            gc = True
     pos, st = cesgen.positions(setup)
     edges = cesgen.commit_edges(setup)
     script = setup["script"]
@@ -83,6 +97,11 @@ def gen_case(rng, tier):
     for o in script:
         ops.append(o)
         if rng.random() < 0.18:
+            ops.append(gen_read(rng, {"channels": setup["channels"]}, pos, edges))
+    if gc:
+        # one pass of the garbage collector after the last writer (and a reopen), then reads
+        ops.append({"op": "gc"})
+        for _ in range(rng.randrange(1, 4)):
             ops.append(gen_read(rng, {"channels": setup["channels"]}, pos, edges))
     final = [gen_read(rng, {"channels": setup["channels"]}, pos, edges) for _ in range(rng.randrange(4, 11))]
     return {"setup": setup, "ops": ops, "final": final}
@@ -153,6 +172,8 @@ def histogram(case, r):
             ks.append("%s_err=%d" % (o["op"], x["err"]))
         if o.get("fault"):
             ks.append("short_write_scripted")
+        if o["op"] == "gc" and (x.get("msg") or "").startswith("reclaimed="):
+            ks.append("gc_pass_reclaimed_bytes" if int(x["msg"][10:]) > 0 else "gc_pass_nothing_to_do")
     for o, x in _reads(case, r):
         n = sum(len(cr["ser"]) for cr in x.get("read") or [])
         ks.append("read_series=%d" % min(n, 4))
